@@ -418,6 +418,124 @@ fn typed_footer_cases<B: Backend, P: Prims>(opts: &Opts, rep: &mut Report, idx: 
     }
 }
 
+/// Key objects obtained in every way the library offers (raw bytes, text, clone, PIE unwrap, password
+/// unwrap, PKE unseal, `public_key()`) must all *behave* like the key whose bytes they expose: the
+/// local token for a fixed nonce is the reference token for those bytes, reference tokens open, Ed25519
+/// signatures are the reference signatures, and every public key object verifies independent signatures.
+fn derived_objects<B: Backend, P: Prims>(opts: &Opts, rep: &mut Report, idx: &mut u64) {
+    use paseto_core::paserk::{PasswordWrappedKey, PieWrappedKey, SealedKey};
+    use paseto_core::version::{Local, PkePublic, PkeSecret, Secret};
+    use paseto_core::{LocalKey, SecretKey};
+    let stream = format!("c03.{}.derived", B::NAME);
+    let n = if B::VER == 1 { opts.size(24, 200) } else { opts.size(400, 6000) };
+    let mut krng = Rng::derive(opts.seed, &stream, 0);
+    let (ps, pp) = B::gen_pke_pair(&mut krng);
+    let (Ok(psk), Ok(ppk)) = (key_from_bytes::<B, PkeSecret>(&ps), key_from_bytes::<B, PkePublic>(&pp)) else { return };
+    let params = pw_cheap::<B>();
+    for _ in 0..n {
+        *idx += 1;
+        if !opts.mine(*idx) {
+            continue;
+        }
+        let mut rng = Rng::derive(opts.seed, &stream, *idx);
+        crate::noise::sprinkle::<B>();
+        let key: [u8; 32] = rng.arr();
+        let wk = local_key::<B>(&rng.arr());
+        let nonce = rng.bytes(B::LOCAL_NONCE);
+        let len = gen_len(&mut rng, false);
+        let msg = gen_bytes(&mut rng, len);
+        let footer = gen_footer(&mut rng);
+        let aad = gen_aad::<B>(&mut rng);
+        let base = local_key::<B>(&key);
+        let mut locals: Vec<(&str, Result<LocalKey<B>, paseto_core::PasetoError>)> = vec![
+            ("raw", Ok(local_key::<B>(&key))),
+            ("text", key_text(&base).parse::<LocalKey<B>>()),
+            ("clone", Ok(base.clone())),
+            ("pie-unwrapped", base.clone().wrap_pie(&wk).map(|w| w.to_string()).and_then(|t| t.parse::<PieWrappedKey<B, Local>>()).and_then(|w| w.unwrap(&wk))),
+            ("password-unwrapped", base.clone().password_wrap_with_params(b"pw", &params).map(|w| w.to_string()).and_then(|t| t.parse::<PasswordWrappedKey<B, Local>>()).and_then(|w| w.unwrap(b"pw"))),
+        ];
+        if B::VER != 1 || *idx % 8 == 0 {
+            locals.push(("pke-unsealed", base.clone().seal(&ppk).map(|w| w.to_string()).and_then(|t| t.parse::<SealedKey<B>>()).and_then(|w| w.unseal(&psk))));
+        }
+        let want = join_token(&format!("v{}.local.", B::VER), &r::local_seal::<P>(B::VER, &key, &nonce, &msg, &footer, &aad), &footer);
+        for (how, k) in locals {
+            let d = |what: &str| json!({"backend": B::NAME, "key_obtained_by": how, "key": hx(&key), "nonce": hx(&nonce), "msg": hx_short(&msg), "footer": hx_short(&footer), "aad": hx_short(&aad), "what": what});
+            let k = match k {
+                Ok(k) => k,
+                Err(e) => {
+                    rep.violation(&format!("C03|{}|local|key-object-unavailable:{how}:{}", B::NAME, err_kind(&e)), d("could not obtain the key object"));
+                    continue;
+                }
+            };
+            if key_bytes(&k) != key {
+                rep.violation(&format!("C03|{}|local|key-object-exposes-other-bytes:{how}", B::NAME), d("exposed bytes differ"));
+            }
+            let kp = KeyPair::<B>::Local(k);
+            match guard(|| kp.seal_with_nonce(&nonce, &msg, &footer, &aad)) {
+                Ok(Ok(t)) if t == want => {}
+                Ok(Ok(t)) => rep.violation(&format!("C03|{}|local|seal-differs-from-reference:key-{how}", B::NAME), d(&format!("library token {} differs from the reference token for the exposed key bytes", t.chars().take(200).collect::<String>()))),
+                _ => rep.violation(&format!("C03|{}|local|seal-failed:key-{how}", B::NAME), d("seal failed")),
+            }
+            if !matches!(guard(|| kp.open(&want, &aad)), Ok(Ok((m, _))) if m == msg) {
+                rep.violation(&format!("C03|{}|local|reference-token-rejected:key-{how}", B::NAME), d("a reference-built token for the exposed key bytes was not accepted"));
+            }
+            rep.case(&format!("{}.local.key-{how}", B::NAME), fnv_parts(&[B::NAME.as_bytes(), how.as_bytes(), &key, &nonce, &msg, &footer, &aad]), true);
+            rep.sample_class(&format!("{}.local.key-{how}", B::NAME), 1, || d("token equals the reference token; reference token opens"));
+        }
+        // secret keys
+        let sk_raw = B::gen_secret(&mut rng);
+        let sbase = secret_key::<B>(&sk_raw);
+        let pk_raw = key_bytes(&sbase.public_key());
+        let secrets: Vec<(&str, Result<SecretKey<B>, paseto_core::PasetoError>)> = vec![
+            ("raw", Ok(secret_key::<B>(&sk_raw))),
+            ("text", key_text(&sbase).parse::<SecretKey<B>>()),
+            ("clone", Ok(sbase.clone())),
+            ("pie-unwrapped", sbase.clone().wrap_pie(&wk).map(|w| w.to_string()).and_then(|t| t.parse::<PieWrappedKey<B, Secret>>()).and_then(|w| w.unwrap(&wk))),
+            ("password-unwrapped", sbase.clone().password_wrap_with_params(b"pw", &params).map(|w| w.to_string()).and_then(|t| t.parse::<PasswordWrappedKey<B, Secret>>()).and_then(|w| w.unwrap(b"pw"))),
+        ];
+        let pre = r::public_preauth(B::VER, &pk_raw, &msg, &footer, &aad);
+        let ref_sig: Option<Vec<u8>> = match B::VER {
+            1 => P::rsa_pss_sign(&sk_raw, &pre),
+            3 => P::p384_sign(sk_raw.as_slice().try_into().unwrap(), &pre).map(|s| s.to_vec()),
+            _ => Some(P::ed25519_sign(sk_raw[..32].try_into().unwrap(), &pre).to_vec()),
+        };
+        let ref_tok = ref_sig.map(|sig| join_token(&format!("v{}.public.", B::VER), &[&msg[..], &sig[..]].concat(), &footer));
+        for (how, k) in secrets {
+            let d = |what: &str| json!({"backend": B::NAME, "key_obtained_by": how, "secret_key": hx_short(&sk_raw), "msg": hx_short(&msg), "footer": hx_short(&footer), "aad": hx_short(&aad), "what": what});
+            let k = match k {
+                Ok(k) => k,
+                Err(e) => {
+                    rep.violation(&format!("C03|{}|public|key-object-unavailable:{how}:{}", B::NAME, err_kind(&e)), d("could not obtain the key object"));
+                    continue;
+                }
+            };
+            let pk = k.public_key();
+            if key_bytes(&pk) != pk_raw {
+                rep.violation(&format!("C03|{}|public|derived-public-key-differs:key-{how}", B::NAME), d("public_key() of this object differs"));
+            }
+            let kp = KeyPair::<B>::Public(k, pk);
+            match guard(|| kp.seal(&msg, &footer, &aad)) {
+                Ok(Ok(t)) => {
+                    let (_, body, f) = split_token(&t);
+                    if r::public_verify::<P>(B::VER, &pk_raw, &body, &f, &aad).as_deref() != Some(&msg[..]) {
+                        rep.violation(&format!("C03|{}|public|independent-verifier-rejects:key-{how}", B::NAME), d("independent verifier rejected the signature"));
+                    }
+                    if B::VER % 2 == 0 && r::public_sign_ed::<P>(B::VER, sk_raw[..32].try_into().unwrap(), &msg, &footer, &aad) != body {
+                        rep.violation(&format!("C03|{}|public|deterministic-signature-differs:key-{how}", B::NAME), d("Ed25519 token differs from the reference"));
+                    }
+                }
+                _ => rep.violation(&format!("C03|{}|public|sign-failed:key-{how}", B::NAME), d("sign failed")),
+            }
+            if let Some(rt) = &ref_tok {
+                if !matches!(guard(|| kp.open(rt, &aad)), Ok(Ok((m, _))) if m == msg) {
+                    rep.violation(&format!("C03|{}|public|reference-token-rejected:key-{how}", B::NAME), d("a token signed by the independent signer was not accepted by this object's public key"));
+                }
+            }
+            rep.case(&format!("{}.public.key-{how}", B::NAME), fnv_parts(&[B::NAME.as_bytes(), how.as_bytes(), &sk_raw, &msg, &footer, &aad]), true);
+        }
+    }
+}
+
 /// one signing key object used for a long sequence of messages of every length 0..=600
 fn public_sequence<B: Backend, P: Prims>(opts: &Opts, rep: &mut Report) {
     if opts.shard != 1 % opts.nshards && opts.only.is_none() {
@@ -466,6 +584,9 @@ fn backend<B: Backend, P: Prims>(opts: &Opts, rep: &mut Report) {
     }
     if opts.wants_part("typed") {
         typed_footer_cases::<B, P>(opts, rep, &mut idx);
+    }
+    if opts.wants_part("derived") {
+        derived_objects::<B, P>(opts, rep, &mut idx);
     }
     if opts.wants_part("local") {
         local_cases::<B, P>(opts, rep, &mut idx);
@@ -579,7 +700,7 @@ pub fn run(opts: &Opts) {
     }
     rep.set(
         "rule",
-        json!("typed footers: reference-built local and public tokens whose footer is non-canonically spelled JSON (or differs from a lossy footer type's canonical form) opened through Json<Value> / the lossy type, must be accepted and print identically; differential: (key, nonce, payload, footer, assertion) drawn from a seeded generator (block-boundary lengths, all-00/ff keys and nonces, big payloads); local tokens compared byte for byte with the reference built on the OTHER primitive family, signed tokens verified by an independent verifier and tokens signed by an independent signer offered to the library; sibling backends compared with each other; distinct = distinct input tuples"),
+        json!("derived objects: local / secret key objects obtained from raw bytes, text, clone, PIE unwrap, password unwrap, PKE unseal (and the public keys they derive) seal the reference token for a fixed nonce, open reference tokens, sign reference signatures; typed footers: reference-built local and public tokens whose footer is non-canonically spelled JSON (or differs from a lossy footer type's canonical form) opened through Json<Value> / the lossy type, must be accepted and print identically; differential: (key, nonce, payload, footer, assertion) drawn from a seeded generator (block-boundary lengths, all-00/ff keys and nonces, big payloads); local tokens compared byte for byte with the reference built on the OTHER primitive family, signed tokens verified by an independent verifier and tokens signed by an independent signer offered to the library; sibling backends compared with each other; distinct = distinct input tuples"),
     );
     rep.set(
         "unexplored",
